@@ -24,7 +24,7 @@ def run(rep, tier):
                "driver from the counting wrapper's own records; TLC checks provenance, counters, status protocol, ordering and budget arithmetic",
                "the budget clause is evaluated for runs whose solver parameters are at their defaults",
                "gradient-sampling solvers are made reproducible through the NANO_VERIF default seed hook",
-               "the constrained solvers (penalty, augmented Lagrangian) are exercised by C05's driver")
+               "the constrained solvers (penalty, augmented Lagrangian) are exercised by C05's driver: return contract, counters and the budget clause (max_outer_iters inner solves, each within max_evals + 1100 + 8 n)")
 
 
 def replay(rep, path):
